@@ -1364,7 +1364,7 @@ class Backend:
                                    extra_paths, t.protocol, t.priority,
                                    isinstance(exe, (build.Target, build.CustomTargetIndex)),
                                    isinstance(exe, build.Executable),
-                                   [x.get_id() for x in depends],
+                                   sorted(x.get_id() for x in depends),
                                    self.environment.coredata.version,
                                    t.verbose, exe_fname)
             arr.append(ts)
